@@ -31,6 +31,7 @@ type Hist struct {
 	podL             *podListerSim
 	nodeL            *nodeListerSim
 	nextRefreshFault bool          // set by an event: the refresh of the next scan fails
+	nextFaultAt      int           // set by an event: this call of the next scan fails
 	goneNames        []string      // names of nodes that left the cluster (may be handed out again)
 	scanInterval     time.Duration // controller option: period of RunForever\'s ticker
 	scripted         bool          // a corpus scenario: no random extras beyond what the script says
